@@ -27,7 +27,7 @@ ASSUMPTIONS = [
 
 
 def budget(tier):
-    return dict(examples=150, seconds=40) if tier == "quick" else dict(examples=2500, seconds=420)
+    return dict(examples=120, seconds=30) if tier == "quick" else dict(examples=2000, seconds=360)
 
 
 @st.composite
